@@ -28,6 +28,7 @@ import PV.Driver.CseTableOps
 import PV.Driver.ParserTableOps
 import PV.Driver.CodegenOps
 import PV.Driver.AlgoTableOps
+import PV.Driver.CoeffTableOps
 /-
   Driver operations: one request S-expression in, one reply S-expression out.
 -/
@@ -228,6 +229,7 @@ def handlers : List (Sexp → Option Sexp) :=
    , handleParserTable
    , handleCodegen
    , handleC19Table
+   , handleCoeffTable
    -- HANDLERS
   ]
 
